@@ -395,7 +395,7 @@ namespace sim
                   if( e.kind == Ev::EXIT && result && e.pos > fr.pos + static_cast< std::uint32_t >( fr.p0 ) ) {
                      cx.viol( "C18.bytes", "check-bytes-passed", i, short_name( fr.rule ) + " succeeded after consuming " + std::to_string( e.pos - fr.pos ) + " bytes, limit " + std::to_string( fr.p0 ) );
                   }
-                  if( e.kind == Ev::EXC && e.x < r.excs.size() && r.excs[ e.x ].message == "maximum allowed rule consumption exceeded" && fr.closings == 1 && h[ fr.closing_idx ].pos <= fr.pos + static_cast< std::uint32_t >( fr.p0 ) && !fr.child_exc ) {
+                  if( e.kind == Ev::EXC && e.x < r.excs.size() && r.excs[ e.x ].cls == EXC_PE_LIB && !fr.fault_pending && !fr.raise_pending && fr.closings == 1 && h[ fr.closing_idx ].pos <= fr.pos + static_cast< std::uint32_t >( fr.p0 ) && !fr.child_exc ) {
                      cx.viol( "C18.bytes", "check-bytes-early", i, short_name( fr.rule ) + " reported excess consumption after " + std::to_string( h[ fr.closing_idx ].pos - fr.pos ) + " bytes, limit " + std::to_string( fr.p0 ) );
                   }
                }
@@ -468,6 +468,11 @@ namespace sim
                         }
                         else {
                            const Event& rn = h[ fr.raise_nested_idx ];
+                           const std::string rname = rule_name( rn.rule );
+                           const bool msg_ok = ( rn.y != 0 ) ? ( ( static_cast< std::uint32_t >( fnv1a( x.message.data(), x.message.size() ) ) | 1u ) == rn.y ) : ( x.message.find( rname ) != std::string::npos );
+                           if( !msg_ok ) {
+                              cx.viol( "C05.nested", hn, i, "the nesting parse_error's message '" + x.message + "' " + ( rn.y != 0 ? "is not the custom error message of " : "does not name the rule " ) + rname );
+                           }
                            if( rn.byte != en.byte || rn.line != en.line || rn.col != en.col || x.byte != en.byte || x.line != en.line || x.col != en.col ) {
                               cx.viol( "C05.nested", hn, i, short_name( fr.rule ) + " nested error reports position byte " + std::to_string( int( x.byte ) ) + " line " + std::to_string( x.line ) + " col " + std::to_string( x.col ) + ", the rule's attempt started at " + pos_str( en ) );
                            }
@@ -492,22 +497,16 @@ namespace sim
                         // ---------------- C05.first / C05.where: natural global failure
                         const Event& re = h[ fr.raise_idx ];
                         const std::string rn = rule_name( re.rule );
-                        std::string msg = "parse error matching " + rn;
-                        if( rn.find( "raise_message" ) != std::string::npos ) {
-                           msg = "err";
-                        }
-                        else if( rn.find( "limit_depth" ) != std::string::npos ) {
-                           msg = "maximum parser rule nesting depth exceeded";
-                        }
-                        else if( rn.find( "limit_bytes" ) != std::string::npos ) {
-                           msg = "maximum allowed rule consumption reached";
-                        }
+                        // custom message: the rule's own error_message (fingerprint recorded at the raise hook);
+                        // default message: any text that names the rule that failed
+                        const bool custom = ( re.y != 0 );
+                        const bool msg_ok = custom ? ( ( static_cast< std::uint32_t >( fnv1a( x.message.data(), x.message.size() ) ) | 1u ) == re.y ) : ( x.message.find( rn ) != std::string::npos );
                         if( x.cls != EXC_PE_LIB ) {
                            cx.viol( "C05.first", head_name( re.rule ), i, "raise for " + short_name( re.rule ) + " produced an exception of class " + std::to_string( x.cls ) );
                         }
                         else {
-                           if( x.message != msg ) {
-                              cx.viol( "C05.first", head_name( re.rule ), i, "parse_error message '" + x.message + "' does not name the failed rule, expected '" + msg + "'" );
+                           if( !msg_ok ) {
+                              cx.viol( "C05.first", head_name( re.rule ), i, "parse_error message '" + x.message + "' " + ( custom ? "is not the custom error message of " : "does not name the failed rule " ) + rn );
                            }
                            if( x.byte != re.byte || x.line != re.line || x.col != re.col ) {
                               cx.viol( "C05.first", head_name( re.rule ), i, "parse_error position byte " + std::to_string( int( x.byte ) ) + " line " + std::to_string( x.line ) + " col " + std::to_string( x.col ) + " differs from the input position at raise " + pos_str( re ) );
@@ -543,8 +542,8 @@ namespace sim
                            mi_ok = true;
                         }
                         const bool known = mi_ok || ( x.cls == EXC_ABORT ) || ( x.cls == EXC_OVERFLOW && !cx.memory_set ) || ( x.cls == EXC_IO ) || ( x.cls == EXC_BAD_ALLOC ) || ( x.cls == EXC_SYSTEM && int( set ) >= 20 )
-                                           || ( fr.cls == RC::W_CHECK_BYTES && x.cls == EXC_PE_LIB && x.message == "maximum allowed rule consumption exceeded" )
-                                           || ( fr.cls == RC::INTEGER && x.cls == EXC_PE_LIB && x.message.find( "overflow" ) != std::string::npos );
+                                           || ( fr.cls == RC::W_CHECK_BYTES && x.cls == EXC_PE_LIB )   // check_bytes' own error (thrown without a raise hook)
+                                           || ( fr.cls == RC::INTEGER && x.cls == EXC_PE_LIB );        // integer overflow error
                         if( !known ) {
                            cx.viol( "C05.same", hn, i, "exception of unknown origin leaves " + short_name( fr.rule ) + ": class " + std::to_string( x.cls ) + " '" + x.what + "'" );
                         }
